@@ -401,3 +401,63 @@ def selftest():
 
 if __name__ == '__main__':
     print('wire selftest', selftest())
+
+
+# ---------------------------------------------------------------------------------- field maps for fault enumeration
+
+def _walk_strings(buf, off, end, depth, out, base):
+    """Record offsets of consecutive u32-length-prefixed strings in buf[off:end]; recurse into ones that look structured."""
+    n = 0
+    while off + 4 <= end and n < 40:
+        (ln,) = struct.unpack_from('>I', buf, off)
+        if off + 4 + ln > end:
+            break
+        out.append(base + off)
+        if depth > 0 and ln >= 8:
+            (inner,) = struct.unpack_from('>I', buf, off + 4)
+            if 0 < inner <= ln - 4 and inner < 64:
+                _walk_strings(buf, off + 4, off + 4 + ln, depth - 1, out, base)
+        off += 4 + ln
+        n += 1
+    return off
+
+
+def length_fields(label, pkt):
+    """Offsets (into the framed packet) of every addressable length field of a message the peer sends.
+    Returns list of (offset, width, name)."""
+    res = []
+    if label in ('kexinit', 'kexreply', 'gexgroup', 'gexreply'):
+        res.append((0, 4, 'packet_length'))
+        res.append((4, 1, 'padding_length'))
+        (plen,) = struct.unpack_from('>I', pkt, 0)
+        pad = pkt[4]
+        pstart, pend = 5, 5 + plen - pad - 1
+        if label == 'kexinit':
+            off = pstart + 17
+            for f in KEX_FIELDS:
+                res.append((off, 4, 'namelist:' + f))
+                (ln,) = struct.unpack_from('>I', pkt, off)
+                off += 4 + ln
+        else:
+            offs = []
+            _walk_strings(pkt, pstart + 1, pend, 2, offs, 0)
+            for i, o in enumerate(offs):
+                res.append((o, 4, 'string#%d' % i))
+    elif label == 'pkm':
+        res.append((0, 4, 'ssh1_length'))
+        (ln,) = struct.unpack_from('>I', pkt, 0)
+        padlen = 8 - ln % 8
+        b = 4 + padlen + 1 + 8
+        res.append((b, 4, 'server_key_bits'))
+        o = b + 4
+        for name in ('server_e', 'server_n'):
+            res.append((o, 2, 'mpint1:' + name))
+            (bits,) = struct.unpack_from('>H', pkt, o)
+            o += 2 + (bits + 7) // 8
+        res.append((o, 4, 'host_key_bits'))
+        o += 4
+        for name in ('host_e', 'host_n'):
+            res.append((o, 2, 'mpint1:' + name))
+            (bits,) = struct.unpack_from('>H', pkt, o)
+            o += 2 + (bits + 7) // 8
+    return res
